@@ -349,6 +349,7 @@ static void make_family(Family& fam, Rng& r) {
   desc += "]";
   describe(desc);
   count("families_n" + std::to_string(nin));
+  if (big) count("families_big");
 }
 
 } // namespace vf
